@@ -59,23 +59,32 @@ def run(ctx):
     nq = 0
     for c, qs, impl, model, hl, dl in res:
         ctx.count("workspaces " + c.origin)
+        cj = c.to_json()["files"]
         for q, a, b in zip(qs, impl, model):
             nq += 1
-            flat_cases.append({"workspace": c.id, "query": q, "files": c.to_json()["files"]})
+            flat_cases.append({"workspace": c.id, "query": q, "files": cj})
             flat_impl.append(a)
             flat_model.append(b)
             for t in q["tags"]:
                 ctx.count("tag " + t)
             ctx.count("expected links %d" % (len(q["expect"]) if q["expect"] is not None else -1))
     ctx.log("%d workspaces, %d identifier occurrences" % (len(cases), nq))
-    ctx.compare("scope(definition)", flat_cases, flat_impl, flat_model,
-                nontrivial=lambda c, a: bool(scopelib.value(a)))
+    # answers without the echoed position, so that `distinct` counts distinct link lists
+    ctx.compare("scope(definition)", flat_cases, [scopelib.value(a) for a in flat_impl], [scopelib.value(b) for b in flat_model],
+                nontrivial=lambda c, a: bool(a))
     # the Lean specification on the same cases vs the generator's declaration map
     ctx.phase("oracle")
     spec = ctx.run_driver(["scopespec" + dl[5:] for _, _, _, _, _, dl in res])
     bad_spec = []
+    bad_wf = []
     for (c, qs, impl, model, hl, dl), sp in zip(res, spec):
-        sw = sp.split(" ") if qs else []
+        sw = sp.split(" ")
+        wf, sw = sw[0], sw[1:]
+        # the generator's domain lies inside the guard of the theorems; the corpus' edge cases lie outside
+        edge = "edge-" in c.id and "after-dangling" not in c.id
+        if (wf == "WF=1") == edge or wf not in ("WF=0", "WF=1"):
+            bad_wf.append((c.id, wf))
+        ctx.count("guard WellFormedWs " + wf)
         if len(sw) != len(qs):
             bad_spec.append((c.id, sp[:200]))
             continue
@@ -85,6 +94,7 @@ def run(ctx):
             got = scopelib.links(s)
             if got is None or [a for a, _ in got] != q["expect"]:
                 bad_spec.append((c.id, q, s))
+    ctx.oblige("tie:generated workspaces satisfy WellFormedWs (decided by the driver), edge cases do not", not bad_wf, str(bad_wf[:5]))
     ctx.oblige("tie:lean-specification = generator's declaration map (%d workspaces)" % len(res), not bad_spec,
                "first: %s" % (json.dumps(bad_spec[0], default=str)[:1500] if bad_spec else ""))
     # implementation-level oracle
